@@ -49,6 +49,30 @@ def run_hash(a):
     return guarded(lambda: hx(h(unhx(a[1]), unoi(a[2]))))
 
 
+def do_step(h, st):
+    """one step (preset <n> | init | upd <hex> [bitlen] | fin <hex> [bitlen] | call <hex> <bitlen|None>) on the object h
+    -> (result text, True for a final / call / preset step)"""
+    fin = False
+    if st[0] == 'preset':
+        h.padmethod.bitcnt = int(st[1]); r = '-'; fin = True
+    elif st[0] == 'init':
+        h.initstate(); r = '-'
+    elif st[0] == 'upd' and len(st) > 2:
+        r = guarded(lambda: hx(h.update(unhx(st[1]), bitlen=unoi(st[2]))))
+    elif st[0] == 'upd':
+        r = guarded(lambda: hx(h.update(unhx(st[1]))))
+    elif st[0] == 'fin':
+        fin = True
+        L = unoi(st[2]) if len(st) > 2 else None
+        r = guarded(lambda: hx(h.update(unhx(st[1]), bitlen=L, padding=True)))
+    elif st[0] == 'call':
+        fin = True
+        r = guarded(lambda: hx(h(unhx(st[1]), unoi(st[2]))))
+    else:
+        raise RuntimeError('bad step %r' % st)
+    return r, fin
+
+
 def run_seq(a, full):
     """hashseq/hashseqc <alg> | step | step …  — one object, state printed after every step
     (steps: preset <n> | init (= h.initstate()) | upd <hex> [bitlen] | fin <hex> [bitlen] | call <hex> <bitlen|None>)"""
@@ -56,28 +80,56 @@ def run_seq(a, full):
     h = mk(steps[0][0])
     out = []
     for st in steps[1:]:
-        fin = False
-        if st[0] == 'preset':
-            h.padmethod.bitcnt = int(st[1]); r = '-'
-        elif st[0] == 'init':
-            h.initstate(); r = '-'
-        elif st[0] == 'upd' and len(st) > 2:
-            r = guarded(lambda: hx(h.update(unhx(st[1]), bitlen=unoi(st[2]))))
-        elif st[0] == 'upd':
-            r = guarded(lambda: hx(h.update(unhx(st[1]))))
-        elif st[0] == 'fin':
-            fin = True
-            L = unoi(st[2]) if len(st) > 2 else None
-            r = guarded(lambda: hx(h.update(unhx(st[1]), bitlen=L, padding=True)))
-        elif st[0] == 'call':
-            fin = True
-            r = guarded(lambda: hx(h(unhx(st[1]), unoi(st[2]))))
-        else:
-            raise RuntimeError('bad step %r' % st)
+        r, fin = do_step(h, st)
         p = h.padmethod
         if full: out.append('%s,%s,%d,%d' % (r, bo(p.padflag), p.bitcnt, p.padcnt))
-        elif fin or st[0] == 'preset': out.append(r)
+        elif fin: out.append(r)
         else: out.append('%s,%d' % (r, p.bitcnt))
+    return ';'.join(out)
+
+
+def env_step(name):
+    """`env <kind>:<arg>` — activity of the library that involves NONE of the objects of the line (other objects are
+    constructed, initialised, fed, called, dropped); whatever it raises is ignored"""
+    from crysp import blake
+    kind, _, arg = name.partition(':')
+    def go():
+        if kind == 'new': mk(arg)                                     # an object of one of the ten classes is only constructed
+        elif kind == 'hash': mk(arg)(b'abc')                          # … constructed and called
+        elif kind == 'feed':                                          # … constructed and fed one block, never finished
+            h = mk(arg); h.update(bytes(blocklen(arg)))
+        elif kind == 'done':                                          # … a complete stream
+            h = mk(arg); h.update(bytes(blocklen(arg))); h.update(b'xyz', padding=True)
+        elif kind == 'hmac':
+            from crysp.hmac import HMAC
+            HMAC(mk(arg), b'key')(b'message')
+        elif kind == 'blake':                                         # Blake.initstate builds a SHA2 object for its IV
+            h = blake.Blake(int(arg)); h.initstate(); h.update(bytes(h.blocksize // 8))
+        elif kind == 'blake2':
+            h = blake.Blake2(int(arg)); h.initstate(); h.update(bytes(h.blocksize // 8))
+        elif kind == 'blake.s': getattr(blake, 'blake' + arg)(b'abc')  # the module singletons
+        else: raise RuntimeError('bad env step %r' % name)
+    try: go()
+    except RuntimeError: raise
+    except Exception: pass
+
+
+def run_multi(a):
+    """hashseqs <alg0>,<alg1>,… | <k> new | <k> <step> | env <name> | …  — SEVERAL objects alive in one line: `<k> new`
+    constructs object k (class alg_k; the constructors end with initstate()), `<k> <step>` is a hashseq step on it, `env`
+    see env_step.  Printed per step as in hashseq (`-,bitcnt` after new)."""
+    steps = split_bar(a)
+    algs = steps[0][0].split(',')
+    objs, out = {}, []
+    for st in steps[1:]:
+        if st[0] == 'env':
+            env_step(st[1]); out.append('-'); continue
+        k = int(st[0])
+        if st[1] == 'new':
+            objs[k] = mk(algs[k]); out.append('-,%d' % objs[k].padmethod.bitcnt); continue
+        h = objs[k]
+        r, fin = do_step(h, st[1:])
+        out.append(r if fin else '%s,%d' % (r, h.padmethod.bitcnt))
     return ';'.join(out)
 
 
@@ -138,6 +190,7 @@ def run_hmac(op, a):
 def run_impl(line):
     t = line.split(); op, a = t[0], t[1:]
     if op == 'hash': return run_hash(a)
+    if op == 'hashseqs': return run_multi(a)
     if op == 'hashseq': return run_seq(a, False)
     if op == 'hashseqc': return run_seq(a, True)
     if op == 'hashcalls': return run_calls(a)
